@@ -156,6 +156,28 @@ def drop_failed_optional(p, r, rng=None):
         for x in b["modules"]:
             allsel.add(x["name"])
             allprov |= set(x.get("provides") or [])
+    # "cannot be resolved" must hold whatever else happens during resolution: a name that is merely absent from the final builds may
+    # have been resolved and rolled back together with the module that asked for it (then its conflicts / if-then dependencies did
+    # shape the outcome, and deleting it legitimately changes the build — found by the thorough tier). Sound candidates are names that
+    # no module or app of the project defines and no module provides.
+    defined_anywhere, provided_anywhere = set(), set()
+    for kind, m, path in projcheck.yaml_modules(p):
+        if m.get("name"):
+            defined_anywhere.add(m["name"])
+        for key in ("provides", "provides_unique"):
+            provided_anywhere |= set(x for x in (m.get(key) or []) if isinstance(x, str))
+    for docs in p["files"].values():
+        for d in docs:
+            for cx in (d.get("contexts") or []) + (d.get("builders") or []):
+                for key in ("provides", "provides_unique"):
+                    provided_anywhere |= set(x for x in (cx.get(key) or []) if isinstance(x, str))
+            dm = (d.get("defaults") or {})
+            for sect in dm.values():
+                if isinstance(sect, dict):
+                    for key in ("provides", "provides_unique"):
+                        provided_anywhere |= set(x for x in (sect.get(key) or []) if isinstance(x, str))
+    allsel |= defined_anywhere | {"context::" + c for c in tree_of(p)}
+    allprov |= provided_anywhere
     q = copy.deepcopy(p)
     cands = []
     for kind, m, path in projcheck.yaml_modules(q):
